@@ -118,11 +118,17 @@ type scEnv struct {
 	r        *bufio.Reader
 }
 
-func scStart(t *testing.T, be smtp.Backend, lmtp bool) *scEnv {
+func scStart(t *testing.T, be smtp.Backend, lmtp bool) *scEnv { return scStartWith(t, be, lmtp, nil) }
+
+// scStartWith: cfg may set further fields of the server before it starts serving
+func scStartWith(t *testing.T, be smtp.Backend, lmtp bool, cfg func(*smtp.Server)) *scEnv {
 	s := smtp.NewServer(be)
 	s.Domain = "verif"
 	s.LMTP = lmtp
 	s.ErrorLog = log.New(io.Discard, "", 0)
+	if cfg != nil {
+		cfg(s)
+	}
 	l := newLifeListener()
 	e := &scEnv{t: t, s: s, l: l, serveRet: make(chan error, 1)}
 	go func() { e.serveRet <- s.Serve(l) }()
@@ -1235,4 +1241,36 @@ func TestScenarioC19_FloodFromPeerThatStopsReading(t *testing.T) {
 			t.Errorf("lmtp=%v: Server.Close does not return", lmtp)
 		}
 	}
+}
+
+// TestScenarioC01_BodyWhileEarlyReplyCannotBeWritten (seed C01O): LMTP, the backend sets every status before it
+// reads the message, WriteTimeout is set, and the client sends the whole message before it reads any reply over a
+// connection without slack (net.Pipe).  The early replies cannot be written - but the message the client sends
+// is complete and well-formed, so the backend reads exactly its octets and then EOF.
+func TestScenarioC01_BodyWhileEarlyReplyCannotBeWritten(t *testing.T) {
+	be := newScBackend()
+	e := scStartWith(t, scEarlyBackend{be}, true, func(s *smtp.Server) { s.WriteTimeout = 200 * time.Millisecond })
+	for _, c := range []string{"LHLO x", "MAIL FROM:<a@b>", "RCPT TO:<c@d>", "RCPT TO:<e@f>"} {
+		e.send(c + "\r\n")
+		e.expect("250")
+	}
+	e.send("DATA\r\n")
+	e.expect("354")
+	var body strings.Builder
+	for i := 0; i < 30; i++ {
+		line := fmt.Sprintf("line %02d of a message that takes its time .. NOOP\r\n", i)
+		body.WriteString(line)
+		e.send(line) // the backend is reading: each write is taken
+		time.Sleep(25 * time.Millisecond)
+	}
+	e.send(".\r\n")
+	k := e.waitK(be.readDone, "LMTPData did not finish reading")
+	be.mu.Lock()
+	got, rerr := be.got[k], be.readErr[k]
+	be.mu.Unlock()
+	if got != body.String() || rerr != nil {
+		t.Errorf("LMTPData read %d octets (%v), want the whole message of %d octets and EOF", len(got), rerr, body.Len())
+	}
+	go io.Copy(io.Discard, e.r)
+	e.finish(true)
 }
